@@ -157,6 +157,19 @@ def run_case(case, res):
                         if o3[0] != "ok" or not _row_ok(o3[1], T[i], exact):
                             res.violation("index", f"f[{i}](nodes) != f[{i}, p](nodes); {where}", index="single_int", **tags)
     mutation_history(res, U, p, n)
+    ints = [k for k in rb.knots_of(U) if k.denominator == 1]
+    if ints and p <= 3:
+        # numpy integer parameters (np.arange, integer arrays): same values as for the plain integers
+        f = lib.Function(lib.mk_kv(U))
+        for j in range(p + 1):
+            res.transition()
+            T = ref_table(U, j, None, ints, n)
+            o = lib.outcome(lambda: f[:, j]([lib.np.int64(int(k)) for k in ints]))
+            tags = dict(rep="npint_param", rational=False, sub="p" if j == p else "lower")
+            if o[0] != "ok":
+                res.violation("exception", f"f[:, {j}](numpy integers) raised {o[1]}: {o[2]}; U={U}", exc=o[1], **tags)
+            elif any(abs(lib.to_frac(x) - e) > F(1, 10 ** 9) for row, erow in zip(o[1], T) for x, e in zip(row, erow)):
+                res.violation("value", f"f[:, {j}](numpy integers {ints}) = {o[1]} != {T}; U={U}", call="npint", **tags)
     res.observe(sorted(res.outcomes.items()))
 
 
